@@ -288,14 +288,33 @@ class Ctx:
         g = z3bool(goal)
         self.s.push()
         self.s.add(z3.Not(_skolemize(g)))
-        self.s.set('timeout', self.cfg.prove_timeout_ms)
+        self.s.set('timeout', min(self.cfg.prove_timeout_ms, 2500))      # quick incremental attempt; fresh solvers get the full budget
         t0 = time.time()
         r = self.s.check()
         ms = (time.time() - t0) * 1000
         backend = 'z3'
         model = None
+        if r == z3.unknown:
+            # the incremental solver gives up more easily (no preprocessing): retry the same query on fresh solvers
+            for seed in (self.cfg.seed, self.cfg.seed + 7, self.cfg.seed + 101):
+                fs = z3.Solver()
+                fs.set('timeout', self.cfg.prove_timeout_ms)
+                fs.set('random_seed', seed)
+                for a_ in self.s.assertions():
+                    fs.add(a_)
+                t1 = time.time()
+                r = fs.check()
+                ms += (time.time() - t1) * 1000
+                if r == z3.sat:
+                    model = self.model_dict(fs.model())
+                    backend = 'z3-fresh'
+                    break
+                if r == z3.unsat:
+                    backend = 'z3-fresh'
+                    break
         if r == z3.sat:
-            model = self.model_dict(self.s.model())
+            if model is None:
+                model = self.model_dict(self.s.model())
         elif r == z3.unknown and self.cfg.use_cvc5:
             smt2 = self.s.to_smt2()
             t1 = time.time()
